@@ -77,7 +77,15 @@ def gen_system(rng, k, falsy=False):
             if mo:
                 d = fdims()
                 flows.append(dict(name=f"f{len(flows)} {p} => sysenv (stock)", frm=p, to="sysenv", arr=dict(dims=d, values=_marg(uni, X, d, mo))))
-    return dict(uni=uni, procs=procs, flows=flows, stocks=stocks)
+    # a stock without a process that holds the largest magnitude of the system (a reserve, a stock kept for reporting):
+    # it takes no part in any balance, but the default tolerance is scaled to it as to every other stock
+    dominant = rng.random() < 0.25
+    if dominant:
+        sd = ["t"] + rng.sample(["a", "b"], rng.randint(0, 2))
+        z = [0] * nelem(uni, sd)
+        stocks.append(dict(name=f"stock{len(stocks)} reserve", proc=None, dims=sd, inflow=z, outflow=list(z),
+                           stock=[(2 ** 12) * (3 + v) for v in _marg(uni, X, sd, 1)]))
+    return dict(uni=uni, procs=procs, flows=flows, stocks=stocks, dominant=dominant)
 
 
 def sum_ulp(sysd):
@@ -112,10 +120,14 @@ def generate(tier, rng):
             explicit = mode in ("above", "below") or (k + vi) % 3 == 0    # (zero_tol sets its own)
             tol = Fraction(rng.choice([1, 2, 8]), 2 ** rng.choice([20, 30])) if explicit else None
             compare_balances = True
+            tol_eff = tol
+            if mode in ("above", "below") and base["dominant"] and (k + vi) % 2 == 0:
+                # the DEFAULT tolerance is far above the resolution of the sums when a process-less stock dominates
+                tol, tol_eff = None, default_tol(sysd)
             if mode in ("above", "below") and sysd["flows"]:
                 f = sysd["flows"][int(r * len(sysd["flows"]))]
                 j = int(r * 997) % len(f["arr"]["values"])
-                steps = (math.floor(tol * Fraction(3, 2) / U) + 1) if mode == "above" else max(math.floor(tol / 2 / U), 1)
+                steps = (math.floor(tol_eff * Fraction(3, 2) / U) + 1) if mode == "above" else max(math.floor(tol_eff / 2 / U), 1)
                 delta = steps * U * (1 if int(r * 10) % 2 else -1)
                 f["arr"]["values"][j] = str(Fraction(f["arr"]["values"][j]) + delta)
             elif mode in ("zero_tol", "zero_tol_balanced"):
